@@ -1108,6 +1108,56 @@ fn _update_tx_pool_for_reorg(
         }
     }
 
+    // A reorganisation may lower the tip's number, epoch or median time: a time lock (since,
+    // cellbase maturity) that was met when a transaction was admitted may not be met any more
+    // at the earliest position the new chain can commit it at. Judge those transactions again.
+    if !detached_headers.is_empty() {
+        let tip_header = snapshot.tip_header();
+        let immature: Vec<(ProposalShortId, Reject)> = tx_pool
+            .pool_map
+            .iter()
+            .filter(|entry| {
+                let rtx = &entry.inner.rtx;
+                rtx.transaction.inputs().into_iter().any(|input| {
+                    let since: u64 = input.since().into();
+                    since != 0
+                }) || rtx
+                    .resolved_inputs
+                    .iter()
+                    .chain(rtx.resolved_cell_deps.iter())
+                    .any(|cell| {
+                        cell.transaction_info
+                            .as_ref()
+                            .map(|info| info.is_cellbase())
+                            .unwrap_or(false)
+                    })
+            })
+            .filter_map(|entry| {
+                let status = match entry.status {
+                    Status::Pending => TxStatus::Fresh,
+                    Status::Gap => TxStatus::Gap,
+                    Status::Proposed => TxStatus::Proposed,
+                };
+                time_relative_verify(
+                    Arc::clone(&snapshot),
+                    Arc::clone(&entry.inner.rtx),
+                    status.with_env(tip_header),
+                )
+                .err()
+                .map(|reject| (entry.inner.proposal_short_id(), reject))
+            })
+            .collect();
+        for (id, reject) in immature {
+            for entry in tx_pool.pool_map.remove_entry_and_descendants(&id) {
+                debug!(
+                    "remove tx {} whose time lock is not met on the new chain",
+                    entry.transaction().hash()
+                );
+                callbacks.call_reject(tx_pool, &entry, reject.clone());
+            }
+        }
+    }
+
     // Remove expired transaction from pending
     tx_pool.remove_expired(callbacks);
 
